@@ -312,6 +312,8 @@ func verifListing(sf *SexpFunction, seen map[*SexpFunction]bool) *VerifListing {
 			v.Op = "assign"
 		case PopScopeTransferToDataStackInstr:
 			v.Op = "popscopetodata"
+		case TailCallInstr:
+			v.Op, v.Sym, v.N, v.Off = "tailcall", t.sym.name, t.nargs, t.scopes
 		case PrepareCallInstr:
 			v.Op, v.Sym, v.N = "precall", t.sym.name, t.nargs
 		default:
